@@ -94,7 +94,7 @@ def small_strategy(maxL):
         for ai in range(draw(st.integers(1, 2))):
             bcs = whitelist(draw, L)
             fmt = draw(st.sampled_from(['one', 'index_first_tab', 'index_first_space', 'barcode_first']))
-            idx_kind = draw(st.sampled_from(['int', 'str', 'shuffled_int']))
+            idx_kind = draw(st.sampled_from(['int', 'str', 'shuffled_int', 'zero_based']))
             wl = []
             perm = draw(st.permutations(list(range(len(bcs)))))
             for i, bc in enumerate(bcs):
@@ -104,6 +104,8 @@ def small_strategy(maxL):
                     idx = i + 1
                 elif idx_kind == 'shuffled_int':
                     idx = perm[i] + 100
+                elif idx_kind == 'zero_based':
+                    idx = perm[i]             # one cell has index 0
                 else:
                     idx = 'w%d_%d' % (ai, perm[i])
                 wl.append([bc, idx])
